@@ -564,8 +564,21 @@ impl Gen<'_> {
         if depth > 0 { self.maybe_paren(e) } else { e }
     }
 
+    /// In the name-pool profile, prefer variables of enclosing functions half of the time
+    /// (captures are what lexical scoping is about; own locals would otherwise dominate).
+    fn prefer_captured(&mut self, cands: Vec<(usize, usize)>) -> Vec<(usize, usize)> {
+        if !self.profile.small_name_pool || self.fn_level() == 0 || !self.tape.chance(1, 2) {
+            return cands;
+        }
+        let level = self.fn_level();
+        let outer: Vec<(usize, usize)> =
+            cands.iter().copied().filter(|r| self.scopes[r.0].fn_level < level).collect();
+        if outer.is_empty() { cands } else { outer }
+    }
+
     fn var_expr(&mut self, ty: &Ty) -> Option<Expr> {
         let cands = self.vars_of(&|v| v.ty == *ty);
+        let cands = self.prefer_captured(cands);
         if cands.is_empty() {
             return None;
         }
@@ -961,6 +974,7 @@ impl Gen<'_> {
 
     fn stmt_assign(&mut self, out: &mut Block) {
         let cands = self.vars_of(&|v| !v.reserved);
+        let cands = self.prefer_captured(cands);
         if cands.is_empty() {
             return self.stmt_make(out);
         }
